@@ -29,13 +29,26 @@ ANCHORS = [
     'classes:PaneConverter.try_convert', 'classes:PaneConverter.try_convert_struct',
     'classes:PaneConverter.try_convert_tuple',
 ]
-MIN_COUNTERS = {'quick': {'decided_accept': 3000, 'decided_reject': 3000}}
+MIN_COUNTERS = {'quick': {'decided_accept': 3000, 'decided_reject': 3000, 'key_collision_cases': 100}}
 
 
 def check_case(ctx, sub, i, ty, T, v, cls_):
+    before = dict(model.unspec_uses)
     exp = model.spec(ty, v)
+    reasons = {k for k, n in model.unspec_uses.items() if n != before.get(k, 0)}
     out = observe(env.from_data, v, T)
     verdict = exp.v
+    if verdict == model.UNS and exp.why == 'dict-key-collision' and reasons == {'dict-key-collision'} and ty.k in ('dict', 'counter') \
+            and model.is_map(v) and all(model.spec(ty.a[0], kk).v == model.ACC for kk in v):
+        # (top-level mappings only: further out, the enclosing type may have reasons of its own to refuse)
+        # every key and every value is a member and nothing else is unsettled: the mapping IS a member (element-wise rule);
+        # only which of the colliding entries survives is left open
+        ctx.count('key_collision_cases')
+        if out.kind != 'value':
+            ctx.violation('model-vs-pane', sub, i, {'type': describe(ty), 'py_type': short(T, 300), 'value': short(v, 400),
+                                                    'model': 'every key and value is a member; two data keys convert to equal typed keys', 'pane': out.brief()},
+                          mech='accept-but-rejected' if out.kind != 'escape' else f"escape:{type(out.exc).__name__}")
+            return out
     ctx.case((skeleton(ty), genval.skeleton(v), verdict, out.kind),
              nontrivial=ty.depth() >= 1 or ty.k in ('lit', 'enum', 'sub'),
              sample={'type': describe(ty)[:300], 'value': short(v, 200), 'model': repr(exp)[:200], 'pane': out.brief()[:200]})
@@ -103,6 +116,29 @@ def run(ctx):
             ctx.violation('same-T-same-v', 'main', i,
                           {'type': describe(ty), 'py_type2': short(T2, 300), 'value': short(v, 400), 'first': out.brief(), 'second': out2.brief(), 'why': why},
                           mech='outcome-depends-on-more-than-T-and-v')
+    # directed: mappings whose data keys differ but convert to equal typed keys ('1.0' / '1.00' as Decimal, 'a/b' / 'a//b' as a path)
+    from ..tyast import Ty as _Ty
+    COLLIDING = (('decimal', ('1.0', '1.00', 1)), ('fraction', ('1/2', '2/4', 0.5)), ('path', ('a/b', 'a//b', 'a/b/')), ('float', (1, 1.0)),
+                 ('complex', (2, 2.0)), ('date', ('2023-09-05', '20230905')), ('datetime', ('2023-09-05T11:11:11', '2023-09-05 11:11:11')))
+    for i in range(max(10, ctx.budget // 100)):
+        if not ctx.want('collisions', i):
+            continue
+        rng = ctx.rng('collisions', i)
+        kk, keys = rng.choice(COLLIDING)
+        kty = _Ty('path', cls='PurePosixPath') if kk == 'path' else _Ty(kk)
+        ty = rng.choice((_Ty('dict', [kty, _Ty('int')], res=rng.choice(('dict', 'OrderedDict', 'defaultdict'))), _Ty('counter', [kty])))
+        T, err = build_type(ty, rng)
+        if err is not None:
+            continue
+        ks = [k for k in keys if model.spec(kty, k).v == model.ACC]
+        if len(ks) < 2:
+            continue
+        try:
+            check_case(ctx, 'collisions', i, ty, T, {k: j for j, k in enumerate(ks)}, 'member')
+            check_case(ctx, 'collisions', i, ty, T, {**{k: j for j, k in enumerate(ks)}, 'zz': 'not-an-int'}, 'near')
+        except Exception as e:
+            ctx.crash('collisions', i, e)
+
     # equal-as-sets unions in both member orders inside short-lived builtin aliases, alternating in one process:
     # the verdict may depend on nothing but T and v, also when an "equal" type was converted just before
     from ..tyast import Ty
